@@ -86,7 +86,7 @@ def gen_map(rs, small=False):
     for _ in range(nreg):
         if not free:
             break
-        kind = rs.weighted([(4, "mem"), (3, "memu"), (4, "fields"), (2, "cnt"), (2, "file"), (2, "array"), (4, "memory"), (1, "range"), (2, "input"), (2, "output")])
+        kind = rs.weighted([(4, "mem"), (3, "memu"), (4, "fields"), (2, "cnt"), (2, "file"), (2, "array"), (4, "memory"), (1, "range"), (2, "input"), (2, "output"), (2, "flag")])
         if kind in ("file", "array", "memory", "range"):
             n = 2 if kind == "file" else rs.range(2, 3) if kind == "array" else rs.choice([2, 2, 3, 4, 4, 8])
             starts = [w for w in free if all((w + i) in free for i in range(n))]
@@ -113,6 +113,8 @@ def gen_map(rs, small=False):
         e = {"kind": kind, "word": w0}
         if kind == "memu":
             e["default"] = rs.choice([0, 1234, 0xFFFFFFFF, rs.bits(32)])
+        if kind == "flag":
+            e["bit"] = rs.choice([31, 31, 24, 16])
         if kind in ("input", "output"):
             # hardware-side signal of w bits at bit offset o of the word (Input: read-only view of an entity input;
             # Output: write-only register driving an entity output)
@@ -182,6 +184,10 @@ def render_map(m, tag=""):
                 root.append(f"    r{i}: M{tag}_{i}[{off:#x}]")
             else:
                 root.append(f"    r{i}: reg32.Memory[{off:#x}:{off + 4 * e['n']:#x}]")
+        elif k == "flag":
+            # a sticky write-1-to-set flag (FlagField, never cleared by the hardware side here) next to a plain field
+            L += [f"class K{tag}_{i}(reg32.Register):", "    data: reg32.MemField[15:0, Null]", f"    flag: reg32.FlagField[{e.get('bit', 31)}]", ""]
+            root.append(f"    r{i}: K{tag}_{i}[{off:#x}]")
         elif k == "input":
             root.append(f"    r{i}: reg32.Input[{off:#x}]")
         elif k == "output":
@@ -321,6 +327,8 @@ class Model:
             elif k == "memory":
                 for i in range(e["n"]):
                     self.words[e["word"] + i] = {"kind": "memory", "wmask": 0xFFFFFFFF, "val": e["init"][i] if e["init"] else 0, "ignore_strb": e["mode"] == "IGNORE", "unaligned": bool(e.get("unaligned")), "last": i == e["n"] - 1}
+            elif k == "flag":
+                self.words[e["word"]] = {"kind": "flag", "wmask": 0xFFFF, "val": 0, "flag": 0, "bit": e.get("bit", 31)}
             elif k == "input":
                 self.words[e["word"]] = {"kind": "input", "wmask": 0, "val": 0, "w": e["w"], "o": e["o"]}
             elif k == "output":
@@ -353,6 +361,8 @@ class Model:
             bm = 0xFFFFFFFF
         mask = bm & w["wmask"]
         w["val"] = (w["val"] & ~mask) | (data & mask)
+        if w["kind"] == "flag" and (bm >> w["bit"]) & 1 and (data >> w["bit"]) & 1:
+            w["flag"] = 1  # write-1-to-set; writing 0, or not strobing its byte, leaves the flag as it is
         if w["kind"] == "cnt":
             w["wr"] = (w["wr"] + 1) & 0xFF
             w.setdefault("wr_t", []).append(self.now)
@@ -380,6 +390,9 @@ class Model:
             w["rd"] = (w["rd"] + 1) & 0xFF
             w.setdefault("rd_t", []).append(self.now)
             return v, ok
+        if w["kind"] == "flag":
+            v = w["val"] | (w["flag"] << w["bit"])
+            return v, {v}
         if w["kind"] == "output":
             return 0, {0}  # write-only: not readable, reads like an unmapped word
         return w["val"], {w["val"]}
